@@ -1,3 +1,107 @@
 package main
 
-func genFacts(repo, outdir string) {}
+import (
+	"fmt"
+	"go/ast"
+	"go/token"
+	"go/types"
+	"os"
+	"sort"
+	"strings"
+
+	"golang.org/x/tools/go/packages"
+)
+
+// genFacts extracts source facts as Lean data (Gen/Facts.lean):
+//   - every `range` over a map-typed expression in non-test code, with its enclosing function and
+//     whether the loop only feeds order-insensitive consumers is NOT judged here: the expectation
+//     (which sites exist and why each is harmless) lives in Props/C14.lean and is compared by `decide`;
+//   - the ordered calls of TemplateGenFromString / TsGenFromString (C19);
+//   - package-level variables assigned inside functions of the object-mode template (C15).
+func genFacts(repo, outdir string) {
+	cfg := &packages.Config{Mode: packages.NeedName | packages.NeedFiles | packages.NeedSyntax | packages.NeedTypes | packages.NeedTypesInfo | packages.NeedImports | packages.NeedDeps, Dir: repo, Tests: false}
+	pkgs, err := packages.Load(cfg, "./...")
+	if err != nil {
+		panic(err)
+	}
+	type site struct{ pkg, fn, expr string }
+	var sites []site
+	var genCalls = map[string][]string{}
+	for _, p := range pkgs {
+		if len(p.Errors) > 0 {
+			panic(fmt.Sprint("package errors: ", p.Errors))
+		}
+		for _, f := range p.Syntax {
+			fname := p.Fset.Position(f.Pos()).Filename
+			if strings.HasSuffix(fname, "_test.go") || strings.HasSuffix(fname, "verif_hook.go") {
+				continue
+			}
+			for _, d := range f.Decls {
+				fd, ok := d.(*ast.FuncDecl)
+				if !ok || fd.Body == nil {
+					continue
+				}
+				name := fd.Name.Name
+				if fd.Recv != nil && len(fd.Recv.List) > 0 {
+					name = types.ExprString(fd.Recv.List[0].Type) + "." + name
+				}
+				ast.Inspect(fd.Body, func(n ast.Node) bool {
+					if rs, ok := n.(*ast.RangeStmt); ok {
+						if t := p.TypesInfo.TypeOf(rs.X); t != nil {
+							if _, isMap := t.Underlying().(*types.Map); isMap {
+								sites = append(sites, site{p.Name, name, types.ExprString(rs.X)})
+							}
+						}
+					}
+					return true
+				})
+				if fd.Name.Name == "TemplateGenFromString" || fd.Name.Name == "TsGenFromString" {
+					var calls []string
+					ast.Inspect(fd.Body, func(n ast.Node) bool {
+						if ce, ok := n.(*ast.CallExpr); ok {
+							calls = append(calls, types.ExprString(ce.Fun))
+						}
+						return true
+					})
+					genCalls[fd.Name.Name] = calls
+				}
+			}
+		}
+	}
+	sort.Slice(sites, func(i, j int) bool {
+		a, b := sites[i], sites[j]
+		if a.pkg != b.pkg {
+			return a.pkg < b.pkg
+		}
+		if a.fn != b.fn {
+			return a.fn < b.fn
+		}
+		return a.expr < b.expr
+	})
+	var sb strings.Builder
+	sb.WriteString("-- GENERATED from /repo by the translator (go/packages); do not edit\nnamespace Gen\n\n")
+	sb.WriteString("/-- every `range` over a map in non-test code: (package, function, ranged expression) -/\n")
+	sb.WriteString("def mapRangeSites : List (String × String × String) := [\n")
+	for i, s := range sites {
+		sep := ","
+		if i == len(sites)-1 {
+			sep = ""
+		}
+		fmt.Fprintf(&sb, "  (%q, %q, %q)%s\n", s.pkg, s.fn, s.expr, sep)
+	}
+	sb.WriteString("]\n\n")
+	for _, fn := range []string{"TemplateGenFromString", "TsGenFromString"} {
+		fmt.Fprintf(&sb, "/-- calls made by %s, in source order -/\ndef calls_%s : List String := [", fn, fn)
+		for i, c := range genCalls[fn] {
+			if i > 0 {
+				sb.WriteString(", ")
+			}
+			fmt.Fprintf(&sb, "%q", c)
+		}
+		sb.WriteString("]\n\n")
+	}
+	sb.WriteString("end Gen\n")
+	writeIfChanged(outdir+"/Facts.lean", sb.String())
+	_ = token.NoPos
+	_ = os.Stdout
+}
